@@ -23,13 +23,13 @@ From Verif Require Import Wire Core CaseLib TyModel Errs ErrsTy.
 Import ListNotations.
 Open Scope string_scope.
 Open Scope Z_scope.
-Inductive ecase := EC (E: senv) (t: sty) (d: pv) (e: res pv) (cx: option (option exn)).
+Inductive ecase := EC (E: senv) (CF: string -> tcfg) (t: sty) (d: pv) (e: res pv) (cx: option (option exn)).
 """
 
 OK_FUN = """Definition ok (c: ecase) : bool :=
   match c with
-  | EC E t d e cx =>
-      (match ue E Q d (cu true t), e with
+  | EC E CF t d e cx =>
+      (match ue E Q CF d (cu true t), e with
        | Ok r, Ok x => pv_same r x
        | Exn a, Exn b => exn_eqb a b
        | _, _ => false end) &&
@@ -37,7 +37,7 @@ OK_FUN = """Definition ok (c: ecase) : bool :=
        | None => true
        | Some want => match t with
                       | SData c => match sfind E KData c with
-                                   | Some k => opt_exn_eqb (ue_cause E Q k d) want
+                                   | Some k => opt_exn_eqb (ue_cause E Q CF k d) want
                                    | None => false end
                       | _ => true end
        end)
@@ -45,7 +45,8 @@ OK_FUN = """Definition ok (c: ecase) : bool :=
 """
 
 
-def exn_term(e: BaseException) -> str:
+def exn_term(e: BaseException, where=None) -> str:
+    """where: the mapping the exception is about (orders the unordered ExtraKeysError.extra_keys like the model does)"""
     n, mod = type(e).__name__, type(e).__module__
     if mod == "builtins" and n in SIMPLE:
         return SIMPLE[n]
@@ -54,6 +55,10 @@ def exn_term(e: BaseException) -> str:
             return f"(XInvalidFieldValue {coq_str(str(e.field_name))} {coq_pv(e.field_value)} {coq_str(e.holder_class.__name__)})"
         if n == "MissingField":
             return f"(XMissingField {coq_str(str(e.field_name))} {coq_str(e.holder_class.__name__)})"
+        if n == "ExtraKeysError":
+            order = list(where.keys()) if isinstance(where, dict) else []
+            ks = sorted(e.extra_keys, key=lambda k: next((i for i, o in enumerate(order) if type(o) is type(k) and o == k), len(order)))
+            return f"(XExtraKeys [{'; '.join(coq_pv(k) for k in ks)}] {coq_str(e.target_type.__name__)})"
     return f"(XOther {coq_str(n)})"
 
 
@@ -61,7 +66,7 @@ def res_term(fn, *a, render=None):
     try:
         r = fn(*a)
     except Exception as e:  # noqa: BLE001
-        return f"(Exn {exn_term(e)})", e, None
+        return f"(Exn {exn_term(e, a[0] if a else None)})", e, None
     return f"(Ok {render(r) if render else coq_pv(r)})", None, r
 
 
@@ -126,7 +131,8 @@ def make_cases(rng, n_schemas: int, per_schema: int, depth: int = 3):
     n_indexed = max(4, n_schemas // 3)
     for si in range(n_schemas + n_indexed):
         indexed = si >= n_schemas
-        sg = gen.SchemaGen(rng, gen.GenOpts(depth=depth, coq_only=True, named=True, mixin=rng.random() < 0.4))
+        sg = gen.SchemaGen(rng, gen.GenOpts(depth=depth, coq_only=True, named=True, mixin=rng.random() < 0.4,
+                                            configs=rng.random() < 0.5, abstract=False, unpacked=False))
         sg.tag = f"e{si}_"
         c = rng.random()
         if indexed:
@@ -166,6 +172,19 @@ def make_cases(rng, n_schemas: int, per_schema: int, depth: int = 3):
                         else:
                             d2[k] = copy.deepcopy(rng.choice(WHOLE_JUNK))
                     inputs.append(d2)
+                    spec = fam.get(t.name) if t.kind == "data" else None
+                    if spec is not None and spec.config:
+                        # Config dimension: the field name where the alias is expected, an unexpected key, both
+                        d3 = {}
+                        for k, v in copy.deepcopy(w).items():
+                            f = next((x for x in spec.fields if (x.alias or x.name) == k), None)
+                            d3[f.name if (f is not None and rng.random() < 0.5) else k] = v
+                        inputs.append(d3)
+                        d4 = copy.deepcopy(rng.choice([w, d3]))
+                        d4[rng.choice(["zz", "f0 ", "alias", 7])] = 1
+                        if rng.random() < 0.5:
+                            d4[rng.choice(["yy", ""])] = None
+                        inputs.append(d4)
             for d in inputs:
                 entry = ("from_dict", ns[t.name].from_dict) if (mixin_top and rng.random() < 0.5) else ("BasicDecoder.decode", dec.decode)
                 cases.append(dict(fam=fam, t=t, ns=ns, ty=ty, input=copy.deepcopy(d), entry=entry))
@@ -178,8 +197,9 @@ def observe(c):
     cx = None
     if c["t"].kind == "data":
         if exc is not None and type(exc).__name__ == "InvalidFieldValue":
-            cx = f"(Some (Some {exn_term(exc.__context__)}))" if exc.__context__ is not None else "(Some None)"
-        elif exc is not None and type(exc).__name__ == "MissingField":
+            cx = (f"(Some (Some {exn_term(exc.__context__, exc.field_value)}))" if exc.__context__ is not None
+                  else "(Some None)")
+        elif exc is not None and type(exc).__name__ in ("MissingField", "ExtraKeysError"):
             cx = "(Some None)"
     return term, exc, r, (cx or "None"), d
 
@@ -190,14 +210,26 @@ def emit(cases, shard=120):
         chunk = cases[si:si + shard]
         tb = ETables()
         envs, env_defs, lines = {}, [], []
+
+        def cf_term(fam):
+            out = "no_cfg"
+            for x in fam.classes:
+                if x.kind == "data" and (x.config or any(f.alias for f in x.fields)):
+                    al = "; ".join(f"({coq_str(f.name)}, {coq_str(f.alias)})" for f in x.fields if f.alias is not None)
+                    cfg = (f"{{| tc_forbid := {'true' if x.config.get('forbid_extra_keys') else 'false'}; "
+                           f"tc_nba := {'true' if x.config.get('allow_deserialization_not_by_alias') else 'false'}; "
+                           f"tc_alias := [{al}] |}}")
+                    out = f"(if String.eqb c {coq_str(x.name)} then {cfg} else {out})"
+            return f"(fun c : string => {out})"
         for c in chunk:
             fam, t, ns = c["fam"], c["t"], c["ns"]
             if id(fam) not in envs:
                 envs[id(fam)] = f"E_{len(envs)}"
                 env_defs.append(f"Definition {envs[id(fam)]} : senv := "
                                 f"{coq_senv(fam, [x.name for x in fam.classes if x.kind in ('data', 'nt', 'td')])}.")
+                env_defs.append(f"Definition CF_{envs[id(fam)]} : string -> tcfg := {cf_term(fam)}.")
             tb.add_input(c["input"], t, fam, ns)
-            lines.append(f"EC {envs[id(fam)]} {coq_sty(t)} {coq_pv(c['input'])} {c['term']} {c['cx']}")
+            lines.append(f"EC {envs[id(fam)]} CF_{envs[id(fam)]} {coq_sty(t)} {coq_pv(c['input'])} {c['term']} {c['cx']}")
         txt = HEADER + tb.coq() + "\n" + "\n".join(env_defs) + "\n" + OK_FUN
         txt += "Definition cases : list ecase :=\n  [" + ";\n   ".join(lines) + "].\n"
         txt += "Eval vm_compute in (bad_idx ok cases).\n"
@@ -264,8 +296,11 @@ def compose_problems(t: T, fam, ns, d, r, decoders, path="$"):
     elif t.kind == "data" and isinstance(d, dict) and dataclasses.is_dataclass(r):
         spec = fam.get(t.name)
         for f in spec.fields:
-            if f.name in d:
-                x, y = d[f.name], getattr(r, f.name)
+            key = f.alias or f.name
+            if key not in d and f.alias and spec.config.get("allow_deserialization_not_by_alias") and f.name in d:
+                key = f.name
+            if key in d:
+                x, y = d[key], getattr(r, f.name)
                 if x is None and y is None:
                     continue
                 out += part(f.ty, x, y, f"{path}.{f.name}")
@@ -287,7 +322,7 @@ def run(ctx: vlib.Ctx, n_schemas: int, per_schema: int):
         if not gen.same(d_after, c["input"]):
             fails.append(f"input object was modified: {c['input']!r} -> {d_after!r}")
         if c["t"].kind == "data" and exc is not None and type(exc).__name__ not in (
-                "ValueError", "MissingField", "InvalidFieldValue"):
+                "ValueError", "MissingField", "InvalidFieldValue", "ExtraKeysError"):
             fails.append(f"undocumented {type(exc).__name__} escapes a dataclass root: {exc}")
         for what in fails:
             src = c["fam"].source() if hasattr(c["fam"], "source") else ""
